@@ -51,7 +51,15 @@ type world struct {
 var w *world
 
 func component(scripts []string, snaps int) vrt.Scenario {
-	return componentLabelled(scripts, snaps, nil)
+	return componentWith(scripts, snaps, nil, false)
+}
+
+// componentPlain: writes to plain shared memory (fields, elements) in the
+// rewritten code are scheduling points too, and x.f++ / x.f += v are split into
+// read, point, write: what two goroutines updating a counter without
+// synchronisation can do to each other. Memo off, for the same reason as below.
+func componentPlain(scripts []string, snaps int) vrt.Scenario {
+	return componentWith(scripts, snaps, nil, true)
 }
 
 // componentLabelled: with static metric labels configured, and the calls into
@@ -60,7 +68,14 @@ func component(scripts []string, snaps int) vrt.Scenario {
 // The happens-before memo is off: state shared through plain memory between a
 // recorder's preparation and its call is not part of the memo's key.
 func componentLabelled(scripts []string, snaps int, labels map[string]string) vrt.Scenario {
+	return componentWith(scripts, snaps, labels, false)
+}
+
+func componentWith(scripts []string, snaps int, labels map[string]string, plain bool) vrt.Scenario {
 	name := fmt.Sprintf("component/scripts=%s/snapshots=%d", strings.Join(scripts, ","), snaps)
+	if plain {
+		name += "/plain-memory-writes-are-scheduling-points"
+	}
 	if labels != nil {
 		name += fmt.Sprintf("/static-labels=%d/external-calls-are-scheduling-points", len(labels))
 	}
@@ -158,7 +173,11 @@ func componentLabelled(scripts []string, snaps int, labels map[string]string) vr
 		}
 	}
 	helper := strings.Contains(strings.Join(scripts, ""), string(rune(oHelper)))
-	return vrt.Scenario{Name: name, Body: body, Post: post, Memo: labels == nil, Horizon: time.Minute, Setup: func() { vatomict.Active = helper; vrt.ExtCalls = labels != nil }}
+	return vrt.Scenario{Name: name, Body: body, Post: post, Memo: labels == nil && !plain, Horizon: time.Minute, Setup: func() {
+		vatomict.Active = helper
+		vrt.ExtCalls = labels != nil
+		vrt.PlainPoints = plain
+	}}
 }
 
 func diffKey(got, want counts) string {
@@ -349,6 +368,11 @@ func scenariosFor(tier string) []vrt.Scenario {
 			sc.Bound = 1
 			return sc
 		}())
+		for _, scr := range [][]string{{"d", "d"}, {"s", "f"}, {"sd", "fd"}} {
+			sc := componentPlain(scr, 1)
+			sc.Bound = 1
+			out = append(out, sc)
+		}
 		add(2, 0, "h") // a helper goroutine fails the handle late: result and metrics must agree
 		add(2, 1, "sh", "f")
 		return out
@@ -372,6 +396,11 @@ func scenariosFor(tier string) []vrt.Scenario {
 		if len(scr) > 2 {
 			sc.Bound = 2
 		}
+		out = append(out, sc)
+	}
+	for _, scr := range [][]string{{"d", "d"}, {"s", "s"}, {"s", "f"}, {"sd", "fd"}, {"d", "s", "f"}} {
+		sc := componentPlain(scr, 1)
+		sc.Bound = 2
 		out = append(out, sc)
 	}
 	add(1000, 0, "h")
